@@ -49,7 +49,8 @@ def handle (line : String) : String :=
       if !traceOK n tr then
         match firstBad (List.replicate n .idle) 0 tr with
         | some (_, .begin _) => specFail model "overlap"
-        | some (_, .ret _ _) => specFail model "misreported"
+        | some (_, .ret _ true) => specFail model "misreported"
+        | some (_, .ret _ false) => specFail model "skip-misreported-or-unjustified"
         | _ => specFail model "malformed"
       else if !skipsJustified tr then specFail model "skip-unjustified"
       else answer model
